@@ -2,6 +2,9 @@ import vlib
 
 class P(vlib.Prop):
     id = "C15"
+    watch = ("pkg/apk/apk/version.go", "pkg/apk/apk/apkindex.go", "pkg/apk/apk/installed.go", "pkg/apk/apk/package.go", "pkg/apk/apk/index.go", "pkg/apk/apk/install.go",
+             "pkg/apk/expandapk/*.go", "pkg/passwd/*.go", "pkg/build/sbom.go", "pkg/build/lock.go", "pkg/build/layers.go", "pkg/lock/lock.go",
+             "pkg/build/types/*.go", "pkg/baseimg/*.go", "pkg/tarfs/fs.go", "pkg/apk/fs/rwosfs.go")
     rule = ("one stage. (a) Coq cases: hand-picked corners first (every fixed defect and finding replay: 'P\\n', one-byte lines, empty tar entry name, empty path, "
             "negative layer budget), then the four line-oriented readers on mutated well-formed documents (truncation, byte/bit edits, splices, line edits); the "
             "implementation's outcome class (returned / error / panic / timeout, under recover and a 3 s deadline) is compared with the model's class and judged by the validator. "
@@ -11,6 +14,7 @@ class P(vlib.Prop):
             "crashes that recover cannot catch (stack overflow) are probed in child processes. distinct = distinct case terms.")
     stages = (
         dict(name="readers", cmd="c15", args=lambda t, s: []),
+        dict(name="sites", cmd="c15", args=lambda t, s: ["-stage", "sites"]),
     )
     assumptions = (
         "library decoders (gzip, tar, yaml, json, ini, base64, regexp, bufio, strconv) are not modelled: their behaviour on malformed input is explored by the harness, not proved",
